@@ -20,7 +20,10 @@ def recoveryVerdict (s : St) (d : Disk) (impl : String) : String :=
   match impl.splitOn " la=" with
   | [pre, post] =>
     match post.splitOn " persist=" with
-    | [smPart, persist] =>
+    | [smPart, tail] =>
+      let (persist, acked) := match tail.splitOn " acked=" with
+        | [a, b] => (a, b)
+        | _ => (tail, "?")
       let implSM := "la=" ++ smPart
       match (field implSM "la").bind parseOLid with
       | none => "JUDGE unreadable applied position"
@@ -29,11 +32,13 @@ def recoveryVerdict (s : St) (d : Disk) (impl : String) : String :=
         if implSM != spec then
           s!"JUDGE recovered state is not the replicated state of the commands up to the recorded applied position {pOLid la}: expected {spec}"
         else if persist != "same" then "JUDGE vote/log/purge position changed across the restart"
+        else if field pre "vote" != some acked then
+          s!"JUDGE the recovered vote {(field pre "vote").getD "?"} is not the last vote save_vote acknowledged ({acked})"
         else match judgeLogLine pre with
           | some why => "JUDGE " ++ why
           | none =>
             match reopen d with
-            | .ok nd => verdict (dump nd ++ " persist=same") impl
+            | .ok nd => verdict (dump nd ++ " persist=same acked=" ++ pVote nd.disk.ls.vote) impl
             | .panic => verdict "panic" impl
     | _ => "JUDGE unreadable recovery line"
   | _ => "JUDGE unreadable recovery line"
@@ -76,6 +81,18 @@ def step (s : St) (line : String) : St × String :=
     match t.toNat?, n.toNat? with
     | some t, some n => ({ s with ops := .saveVote ⟨t, n, c == "1"⟩ :: s.ops }, "")
     | _, _ => bad s "vote"
+  | ["rv", k], some impl =>
+    -- `read_vote` right after the k-th operation (a `save_vote`) of the uncrashed run
+    match k.toNat? with
+    | some k =>
+      let ops := s.ops.reverse
+      match ops[k]? with
+      | some (.saveVote v) =>
+        if impl != pVote (some v) then
+          (s, s!"JUDGE read_vote after save_vote({pVote (some v)}) returned {impl}")
+        else (s, verdict (pVote (run {} (ops.take (k + 1))).disk.ls.vote) impl)
+      | _ => bad s "rv: not a vote operation"
+    | none => bad s "rv"
   | ["restart", _], some impl => (s, recoveryVerdict s (run {} s.ops.reverse).disk impl)
   | ["crash", n], some impl =>
     match n.toNat? with
